@@ -449,7 +449,8 @@ def cr_and_leading_lf(ctx):
                     "no parser drops" % set_nodes[0].ast.targets[0].id)
     html_ns = "http://www.w3.org/1999/xhtml"
     svg_ns = "http://www.w3.org/2000/svg"
-    for elem, ens in (("pre", html_ns), ("textarea", html_ns), ("listing", html_ns), ("textarea", None), ("div", html_ns), ("textarea", svg_ns)):
+    for elem, ens in (("pre", html_ns), ("textarea", html_ns), ("listing", html_ns), ("textarea", None), ("div", html_ns), ("textarea", svg_ns)) + \
+            tuple((e_, html_ns) for e_ in ("title", "style", "script", "xmp", "iframe", "noembed", "noframes", "noscript", "plaintext", "p", "option", "code")):
         key = "leading-lf[%s]" % elem + ("" if ens == html_ns else "[namespace %s]" % ("none" if ens is None else "svg"))
         if not setters:
             r.idiom("S11", False, key, "%s:%d" % (REL, arm.lineno), "no state is carried from a start tag to the text that follows it",
@@ -466,7 +467,7 @@ def cr_and_leading_lf(ctx):
         except Exception as e:      # noqa: BLE001
             r.idiom("S11", False, key, "%s:%d" % (REL, arm.lineno), "first text after <%s> not decidable (%s)" % (elem, str(e)[:80]))
             continue
-        if elem == "div" or ens == svg_ns:
+        if elem not in ("pre", "textarea", "listing") or ens == svg_ns:
             r.check("S11", got == "\nx" and got_sp == "\n", key, "%s:%d" % (REL, arm.lineno),
                     "text beginning with LF directly after <%s>%s is written as %r / %r: no parser drops a newline there (an SVG element "
                     "named textarea is an ordinary foreign element), a character is added"
@@ -762,6 +763,7 @@ def mutants():
           "                elif in_cdata and type == \"StartTag\":\n                    self.serializeError(\"Unexpected child element of a CDATA element\")\n                for (_, attr_name), attr_value", "S4"),
         T("escape-only-lt", REL, "                    yield self.encode(escape(token[\"data\"]))", "                    yield self.encode(token[\"data\"].replace(\"<\", \"&lt;\"))", "S1"),
         T("leading-lf-not-doubled", REL, "                if first_in_pre and token[\"data\"].startswith(\"\\n\"):", "                if False:", "S11"),
+        T("leading-lf-title-too", REL, "                             name in (\"pre\", \"textarea\", \"listing\") and\n", "                             name in (\"pre\", \"textarea\", \"listing\", \"title\") and\n", "S11"),
         T("leading-lf-any-element", REL, "                             name in (\"pre\", \"textarea\", \"listing\") and\n", "", "S11"),
         T("leading-lf-foreign-namesake", REL, " and\n                             token.get(\"namespace\") in (None, namespaces[\"html\"]))", ")", "S11"),
         T("leading-lf-no-textarea", REL, "name in (\"pre\", \"textarea\", \"listing\")", "name in (\"pre\", \"listing\")", "S11"),
